@@ -385,13 +385,14 @@ Qed.
 Lemma Inv_with_st a s : score s = score (a_st a) -> Inv a -> Inv (with_st a s).
 Proof. intros Hs Ha. eapply Inv_core; [apply core_with_st, Hs|exact Ha]. Qed.
 
-Lemma Inv_emit_connect a n app : Inv a -> Inv (with_ev a (EvConnect n app)).
+Lemma Inv_emit_connect a n app :
+  Inv a -> ss_role (a_st a) = RUnknown -> Inv (with_ev a (EvConnect n app)).
 Proof.
-  intros (H1 & H2 & H3 & H4 & H5 & H6).
+  intros (H1 & H2 & H3 & H4 & H5 & H6) Er.
   unfold Inv. cbn [with_ev a_st a_depth]. repeat split; try assumption;
     try (apply H5; assumption); try (apply H6; assumption).
   unfold J. erewrite J_emit; [reflexivity|exact H4|].
-  cbn [with_ev a_st]. unfold astate_of. rewrite H3. destruct (ss_role (a_st a)); reflexivity.
+  cbn [with_ev a_st]. unfold astate_of. rewrite H3, Er. reflexivity.
 Qed.
 
 Section Fixed.
@@ -399,21 +400,30 @@ Variable env : senv.
 Hypothesis Hinst : e_install env = true.
 Hypothesis Hver : lenN (e_ver env) <= 32.
 
-Lemma ht_do_connect tid b : ht (do_connect env tid b).
+Lemma ht_do_connect tid b : ht (do_connect sv_fixed env tid b).
 Proof.
-  unfold do_connect. apply ht_bind; [apply ht_amf; [apply read_object_np|apply read_object_depth]|].
-  intros [[opa l] rest].
+  intros a Ha. unfold do_connect. rewrite bind_get. cbn [sv_connect_guard sv_fixed].
+  destruct (ss_role (a_st a)) eqn:Er;
+    [rewrite bind_ret|rewrite bind_fail; apply Inv_InvE, Ha|rewrite bind_fail; apply Inv_InvE, Ha].
+  rewrite bind_amf.
+  pose proof (read_object_depth b) as Hd.
+  destruct (fst (read_object cfg_fixed b)) as [[[opa l] rest]|e|s] eqn:Eo;
+    [|cbn [post]; apply InvE_with_depth; [exact Hd|apply Inv_InvE, Ha]|exact (read_object_np _ _ Eo)].
+  set (a1 := with_depth a (snd (read_object cfg_fixed b))).
+  assert (Ha1 : Inv a1) by (apply Inv_with_depth; assumption).
+  assert (Er1 : ss_role (a_st a1) = RUnknown) by exact Er.
+  clearbody a1. clear Ha Er.
   destruct (find_string k_app opa) as [app|].
-  - intros a Ha. rewrite bind_get, bind_put, bind_emit.
-    match goal with |- post (_ ?x) => assert (Ha1 : Inv x); [|revert Ha1; generalize x] end.
-    { apply Inv_emit_connect, Inv_with_st; [reflexivity|exact Ha]. }
+  - rewrite bind_get, bind_put, bind_emit.
+    match goal with |- post (_ ?x) => assert (Hx : Inv x); [|revert Hx; generalize x] end.
+    { apply Inv_emit_connect; [apply Inv_with_st; [reflexivity|exact Ha1]|exact Er1]. }
     apply keeps_ht.
     apply keeps_bind; [apply keeps_writer, writer_proto_ctrl|intros _].
     apply keeps_bind; [apply keeps_writer, writer_peer_bandwidth|intros _].
     apply keeps_bind; [apply keeps_writer, writer_proto_ctrl|intros _].
     apply keeps_writer, writer_connect_result, Hver.
-  - intros a Ha. rewrite bind_get, bind_put. unfold mfail. cbn [post].
-    apply Inv_InvE, Inv_with_st; [reflexivity|exact Ha].
+  - rewrite bind_get, bind_put. unfold mfail. cbn [post].
+    apply Inv_InvE, Inv_with_st; [reflexivity|exact Ha1].
 Qed.
 
 Lemma keeps_read_stream_name b : keeps (read_stream_name b).
